@@ -752,7 +752,73 @@ def run_job(job, tier, extra_w):
     return res
 
 
+# ---------------------------------------------------------------------------------------------------
+# late registration: commands added to a live application after a help page has already been rendered
+def late_cases():
+    out = []
+    for level in ("top", "sub"):
+        for alias in (False, True):
+            for how in ("direct", "help", "--help"):
+                for first in (True, False):  # was a page rendered before the registration?
+                    out.append({"late": True, "level": level, "alias": alias, "how": how, "rendered_before": first})
+    return out
+
+
+def run_late(case):
+    """-> violation or None.  Application with `kalfa` (sub-command `kbravo`); render the listing (or not), register
+    `klate` (with / without alias) on the application or under kalfa, render again: the page must list klate."""
+    from clikit.api.config.command_config import CommandConfig
+    from clikit.config import DefaultApplicationConfig
+    from clikit import ConsoleApplication
+    cfg = DefaultApplicationConfig("tool", "1.0")
+    cfg.set_catch_exceptions(False)
+    cfg.set_terminate_after_run(False)
+    with cfg.command("kalfa") as c:
+        c.set_description("first")
+        with c.sub_command("kbravo") as sc:
+            sc.set_description("second")
+    app = ConsoleApplication(cfg)
+    parent = None if case["level"] == "top" else app.get_command("kalfa")
+
+    def page():
+        if case["how"] == "direct":
+            from clikit.io import BufferedIO
+            from clikit.ui.help import ApplicationHelp, CommandHelp
+            from clikit.ui.rectangle import Rectangle
+            io = BufferedIO()
+            io.set_terminal_dimensions(Rectangle(80, 50))
+            (ApplicationHelp(app) if parent is None else CommandHelp(parent)).render(io)
+            return io.fetch_output()
+        path = [] if parent is None else ["kalfa"]
+        tokens = (["help"] + path) if case["how"] == "help" else (path + ["--help"])
+        rc, out, err = render_run(app, tokens, 80, False)
+        return out
+
+    try:
+        if case["rendered_before"]:
+            page()
+        late = CommandConfig("klate")
+        late.set_description("registered late")
+        if case["alias"]:
+            late.add_alias("klt")
+        if parent is None:
+            app.add_command(late)
+        else:
+            parent.add_sub_command(late)
+        text = strip_sgr(page())
+    except Exception as e:
+        return report.viol("late:crash:" + report.exc_site(e), "late registration scenario raised %r" % (e,), case)
+    if not has_token(text, "klate"):
+        return report.viol("late:missing:%s-command" % case["level"],
+                           "a %s registered on the live application%s is missing from the help listing" % (
+                               "command" if parent is None else "sub-command", " after a page had been rendered" if case["rendered_before"] else ""),
+                           case, "klate listed", text[:600])
+    return None
+
+
 def replay(case):
+    if isinstance(case, dict) and case.get("late"):
+        return run_late(case)
     model = Model(case["app"])
     app = build_app(model)
     _, vs = check_unit(model, app, case["target"], case["w"], case["ansi"], case["mode"])
@@ -802,6 +868,13 @@ def main():
         allv += vs
     allv.sort(key=lambda x: (x[0], x[1]))
     rep.merge([v for _, _, v in allv])
+    lc = late_cases()
+    for c in lc:
+        v = run_late(c)
+        if v:
+            rep.violation(v)
+    rep.part("late", cases=len(lc), what="command / sub-command (with, without alias) registered on a live application before or after a "
+             "help page was rendered; the next listing (direct, help, --help) must contain it")
     for p, d in sorted(parts.items()):
         rep.part(p, **d)
     rep.set("evaluations", sum(d["pages"] for d in parts.values()))
